@@ -2,7 +2,7 @@
 scripts, the norm() oracle of C01, record comparison."""
 import z3
 
-from sx.core import (Ctx, SSeq, conj, lift, mk_seq, model_bytes, model_str, neg, seq_eq, sym_bytes, sym_str)
+from sx.core import (_br, Ctx, SSeq, conj, lift, mk_seq, model_bytes, model_str, neg, seq_eq, sym_bytes, sym_str)
 from sx.instrument import value_eq
 from sx.streams import SymStream
 
@@ -20,7 +20,7 @@ def detect_le(seq, nl_unix='\n', nl_dos='\r\n'):
     if i < 0:
         return 'unix'
     k = len(nl_dos) - len(nl_unix)
-    if i - k >= 0 and Ctx.cur.branch(s.at(lift(nl_dos).el, i - k)):
+    if i - k >= 0 and _br(s.at(lift(nl_dos).el, i - k)):
         return 'dos'
     return 'unix'
 
